@@ -31,7 +31,7 @@ META = {
 KINDS = ["html_block", "html_inline", "raw_dir", "evalrst_raw", "evalrst_rawrole", "hardbreak", "strike",
          "include", "include_literal", "include_code", "include_angle", "evalrst_include", "csv_file", "raw_file"]
 RAWK = KINDS[:7]
-WRAPPERS = ["none", "quote", "list", "note"]
+WRAPPERS = ["none", "quote", "list", "note", "sec"]
 INVS = ["NoRawWhenDisabled", "NoFileWhenDisabled", "RefusalsWarn", "MarkersKept", "AllowedPass"]
 
 _opened: list = []
@@ -96,7 +96,12 @@ def build(doc, d: Path, tight: bool = False):
         (d / f"inc{n}.rst").write_text(f"FILESENTINEL{n}x\n")
         (d / f"inc{n}.html").write_text(f"<p>FILESENTINEL{n}x</p>\n")
         (d / f"data{n}.csv").write_text(f"a,FILESENTINEL{n}x\n")
-        ws = [w for w in ws if w != "none"]
+        sec = "sec" in ws
+        ws = [w for w in ws if w not in ("none", "sec")]
+        if sec and not tight:
+            # the construct in a section of its own, followed by another section (the renderer's current node moves on)
+            out += [f"# First {n}", ""] + wrap(construct_lines(kind, n, d) + ["", f"MARKER{n}x"], ws) + ["", f"## Later {n}", "", f"after {n}", ""]
+            continue
         if tight:
             out += construct_lines(kind, n, d) + [""]
         else:
@@ -123,6 +128,8 @@ def observe(case):
     src.write_text(text)
     ov = {"raw_enabled": case["rawOn"], "file_insertion_enabled": case["fileOn"],
           "myst_enable_extensions": ["strikethrough"], "report_level": 2}
+    if case.get("suppress"):
+        ov["myst_suppress_warnings"] = ["myst", "docutils"]
     _opened.clear()
     _hook[0] = True
     try:
@@ -175,7 +182,7 @@ def _anc(n):
         p = p.parent
 
 
-def judge(ctx, leg, doc, rawOn, fileOn, exp, o, tight=False):
+def judge(ctx, leg, doc, rawOn, fileOn, exp, o, tight=False, suppressed=False):
     case = {"leg": leg, "markdown": o.get("text"), "raw_enabled": rawOn, "file_insertion_enabled": fileOn,
             "constructs": [k for k, _ in doc]}
     if "error" in o:
@@ -214,7 +221,7 @@ def judge(ctx, leg, doc, rawOn, fileOn, exp, o, tight=False):
         if g["read"] and not e["read"]:
             ctx.violation(f"{where}: the file was opened although the construct must be refused", case)
             return
-        if e["warn"] > 0 and g["warn"] == 0:
+        if e["warn"] > 0 and g["warn"] == 0 and not suppressed:
             ctx.violation(f"{where}: refused without a warning", case)
             return
 
@@ -230,7 +237,7 @@ def run(ctx):
                 "V: random mixtures of 3-8 constructs with wrapper nesting <= 3. non-trivial = at least one construct refused")
     ctx.assumptions += ["docutils front end; sentinel payloads / sentinel files identify what each construct let through",
                         "file reads observed through sys.addaudithook('open') in the worker processes"]
-    base = {"DevFilterSkips": False, "DevAngleNoGate": False}
+    base = {"DevFilterSkips": False, "DevAngleNoGate": False, "DevFilterLastSection": False}
     runs = [("pairs", KINDS, WRAPPERS, 2 if quick else 2), ("rawtriples", RAWK, ["none"], 3),
             ("files", KINDS[7:], ["none", "note"], 2 if quick else 3)]
     if not quick:
@@ -247,8 +254,9 @@ def run(ctx):
         if rc.coverage.get(act, (0, 0))[0] == 0:
             raise tlc.MachineryFailure(f"Security: action {act} never taken (vacuous)")
     ctx.add_tlc("Security_cov", rc)
-    for dev, inv, kinds, n in (("DevFilterSkips", "NoRawWhenDisabled", {"html_block"}, 3), ("DevAngleNoGate", "NoFileWhenDisabled", {"include_angle"}, 1)):
-        rd = tlc.run("Security", tlc.cfg(ctx, f"se_{dev}.cfg", {**base, dev: True, "Kinds": kinds, "Wrappers": {"none"}, "MaxLen": n}, invariants=[inv]), wd=ctx.wd)
+    for dev, inv, kinds, n in (("DevFilterSkips", "NoRawWhenDisabled", {"html_block"}, 3), ("DevAngleNoGate", "NoFileWhenDisabled", {"include_angle"}, 1),
+                                ("DevFilterLastSection", "NoRawWhenDisabled", {"html_block"}, 1)):
+        rd = tlc.run("Security", tlc.cfg(ctx, f"se_{dev}.cfg", {**base, dev: True, "Kinds": kinds, "Wrappers": {"none", "sec"}, "MaxLen": n}, invariants=[inv]), wd=ctx.wd)
         tlc.expect_violation(rd, inv, f"Security {dev}")
         ctx.add_tlc(f"Security_{dev}", rd, "expected counterexample found")
     seen, cases = set(), []
@@ -267,6 +275,14 @@ def run(ctx):
         ctx.count((repr(c["doc"]), c["rawOn"], c["fileOn"], c.get("tight", False)), nontrivial=refused)
         ctx.traces_validated += 1
         judge(ctx, "R", c["doc"], c["rawOn"], c["fileOn"], c["exp"], o, c.get("tight", False))
+    # the settings must be honoured whatever the warning filter says: single constructs once more with the MyST
+    # warnings suppressed (a suppressed warning has no node to put in a raw node's place)
+    scases = [{**c, "id": 5_000_000 + c["id"], "suppress": True} for c in cases if len(c["doc"]) == 1 and not c.get("tight")]
+    for c, o in zip(scases, pmap(observe, scases, chunksize=16)):
+        ctx.count((repr(c["doc"]), c["rawOn"], c["fileOn"], "suppressed"), nontrivial=any(e["warn"] > 0 for e in c["exp"]))
+        ctx.traces_validated += 1
+        judge(ctx, "R-suppressed", c["doc"], c["rawOn"], c["fileOn"], c["exp"], o, suppressed=True)
+    ctx.leg("R-suppressed", behaviours=len(scases))
     mid = cases[len(cases) // 2]
     ctx.sample({"constructs": mid["doc"], "raw_enabled": mid["rawOn"], "file_insertion_enabled": mid["fileOn"], "expected_per_construct": mid["exp"]})
     ctx.leg("R", behaviours=len(cases))
@@ -276,7 +292,7 @@ def run(ctx):
     for t in range(200 if quick else 4000):
         doc = []
         for _ in range(rnd.randint(3, 8)):
-            ws = [rnd.choice(WRAPPERS[1:]) for _ in range(rnd.choice([0, 0, 1, 1, 2, 3]))]
+            ws = [rnd.choice(WRAPPERS[1:4]) for _ in range(rnd.choice([0, 0, 1, 1, 2, 3]))] + (["sec"] if rnd.random() < 0.25 else [])
             doc.append((rnd.choice(KINDS), ws))
         vcases.append({"id": 10_000_000 + t, "doc": doc, "rawOn": rnd.random() < 0.4, "fileOn": rnd.random() < 0.4, "wd": str(ctx.wd / "docs")})
     vouts = pmap(observe, vcases, chunksize=8)
